@@ -66,11 +66,11 @@ class Frames(Part):
         em = D.make_execmodel(s)
         chunks = list(case["chunks"])
         total = sum(m[2] for m in case["msgs"])
-        if chunks and min(chunks) == 1 and total > 20000:
-            chunks = [c if c > 1 else 7 for c in chunks]  # 1-byte reads of huge payloads only burn time
-        send_chunks = list(case["send_chunks"])
-        if send_chunks and min(send_chunks) < 64 and total > 20000:
-            send_chunks = [max(c, 257) for c in send_chunks]
+        # tiny reads of huge payloads only burn time (Popen2IO.read concatenates per low-level read): keep a message
+        # within about 2000 low-level reads / partial sends
+        floor = max(1, total // 2000)
+        chunks = [max(c, floor) for c in chunks]
+        send_chunks = [max(c, floor) for c in case["send_chunks"]]
         io_a, io_b, ab, ba = wires.io_pair(s, em, em, case["transport"], chunks, chunks[::-1], send_chunks)
         ab.keep_log = True
         sent = []
